@@ -15,7 +15,7 @@ sed -i "s#\"/repo/src/smallvec.rs\"#\"$M/src/smallvec.rs\"#" $V/kani/src/lib.rs
 sed -i "s#/repo/Cargo.lock#$M/Cargo.lock#" $V/tools/kani_run.py
 set +e
 cd $V
-export HPBF_REPO=$M CARGO_TARGET_DIR_SYMX=/tmp/vdev-target
+export HPBF_REPO=$M SYMX_BIN=/tmp/vdev-target/debug/symx
 # reuse one target dir across invocations
 mkdir -p $V/symx/.cargo; printf '[build]\nrustflags = ["--cfg", "hpbf_verif"]\ntarget-dir = "/tmp/vdev-target"\n[net]\noffline = true\n' > $V/symx/.cargo/config.toml
 sed -i 's#\$ROOT/symx/target/debug/symx#/tmp/vdev-target/debug/symx#g; s#\$ROOT/symx/target/release/symx#/tmp/vdev-target/release/symx#g' $V/check
